@@ -322,13 +322,14 @@ def run(ctx, rep):
                    key="C15.undisturbed|compile_depth|#%d" % n_rec)
     rep.floor("C15.recursive compile_depth calls", n_rec, 2)
     fold_keeps_operands(F, rep)
+    source_order_kept(F, rep)
     # "their values are not disturbed by the evaluation of later siblings": an operand that waits in a register while its siblings run
     # (store_fast / store_skip park it) has to be a value, not a view of the slot it was read from - the sibling may write that slot
     from props import C08 as _c08
     _c08.no_view_stored(F, rep, ctx, rule="C15.parked-by-value")
 
 
-def fold_keeps_operands(F, rep):
+def fold_keeps_operands(F, rep, rule="C15.fold-keeps-operands"):
     """An expression the folder turns into a constant emits no code at all, so every operand it contained is never evaluated.  That is right
     only if every operand was itself a constant, or the language would not have evaluated the dropped operand anyway (`false && e`,
     `true || e`).  `Expr::try_constexpr_eval` is evaluated on a BinOp of every operator with its recursive calls scripted: one operand
@@ -394,8 +395,8 @@ def fold_keeps_operands(F, rep):
                         und.append("%s constant %s: %r" % (side, cname, r))
                 if it.exhausted:
                     und.append("path bound")
-        rep.ob("C15.fold-keeps-operands", "`a %s b` folds to a constant only when no operand that would run is dropped" % opname,
-               "violated" if bad else ("undecided" if und else "ok"), "; ".join((bad or und)[:3]), f.span, fn=f.path, key="C15.fold-keeps-operands|%s" % opname)
+        rep.ob(rule, "`a %s b` folds to a constant only when no operand that would run is dropped" % opname,
+               "violated" if bad else ("undecided" if und else "ok"), "; ".join((bad or und)[:3]), f.span, fn=f.path, key="%s|%s" % (rule, opname))
     # unary forms
     for uname in ("UnaryNot", "UnaryMinus"):
         if uname not in exn:
@@ -407,9 +408,9 @@ def fold_keeps_operands(F, rep):
         n += 1
         bad = [repr(o.value)[:60] for o in outs if o.kind == "return" and isinstance(o.value, Variant) and o.value.name == "Ok"
                and not (isinstance(o.value.fields[0], Variant) and o.value.fields[0].name == "Impossible")]
-        rep.ob("C15.fold-keeps-operands", "%s of a non-constant operand is not folded" % uname, "violated" if bad else "ok", "; ".join(bad[:2]), f.span, fn=f.path,
-               key="C15.fold-keeps-operands|%s" % uname)
-    rep.floor("C15.fold-keeps-operands evaluations", n, 100)
+        rep.ob(rule, "%s of a non-constant operand is not folded" % uname, "violated" if bad else "ok", "; ".join(bad[:2]), f.span, fn=f.path,
+               key="%s|%s" % (rule, uname))
+    rep.floor(rule + " evaluations", n, 100)
 
 
 def _compile_whole(it, p, fid, fn, t, args):
@@ -481,3 +482,47 @@ def parking_effects(F, rep):
                "Ok paths: %s" % [[e[0] for e in i["events"] if e[0] in ("pop", "push")] for i in oks][:3], fn.span, fn=fn.path, key="C15.parked|handler|%s" % name)
         good = good and ok_
     return good
+
+
+ORDER_CHANGING = (r"::sort", r"::reverse$", r"Iterator::rev$", r"::swap$", r"::swap_remove$", r"::rotate_", r"Vec::insert$", r"VecDeque::push_front$",
+                  r"BTreeMap::(into_values|into_keys|into_iter|iter|iter_mut|values|values_mut|keys|range|pop_first|pop_last|first_key_value|last_key_value)$",
+                  r"BTreeSet::(into_iter|iter|range|pop_first|pop_last|first|last)$", r"BinaryHeap::", r"HashMap::(into_values|into_keys|into_iter|iter|iter_mut|values|values_mut|keys|drain)$",
+                  r"HashSet::(into_iter|iter|drain)$", r"IntoIterator::into_iter$")
+ORDERED_SOURCES = ("BTreeMap", "BTreeSet", "HashMap", "HashSet", "BinaryHeap")
+
+
+def source_order_kept(F, rep, rule="C15.source-order"):
+    """The generators lay the children of a list literal, a map literal, an argument list, a block, a dot chain down in the order of the
+    sequence the AST node holds (C15.order).  That sequence is built by the parser from the children of the parse-tree node, which pest hands
+    out in source order.  Per builder of such a sequence (the parser function and its closures): nothing in it re-orders a collection - no
+    sort / reverse / rev / swap / front insertion, and no iteration of a sorted or hashed collection (a set used only to *test* for duplicates
+    is fine: it is never iterated).  `into_iter` counts only on a sorted / hashed collection."""
+    import re
+    builders = (("map_initializer", "`map{k1: v1, k2: v2}`: the pairs", True), ("list", "`[e1, e2]`: the elements", True),
+                ("function_arguments", "`f(a1, a2)`: the arguments", True), ("block", "`{ s1  s2 }`: the statements", True),
+                ("dot_chain", "`a.b().c()`: the links", False), ("function_parameters", "`fn(p1, p2)`: the parameters", False),
+                ("class_body", "`class C { m1  m2 }`: the members", False))
+    n = 0
+    for nm, label, required in builders:
+        f = F.fn("compiler::parser::Parser::" + nm)
+        if f is None:
+            if required:
+                raise AnchorMissing("Parser::" + nm)
+            continue
+        hits = []
+        for g in [f] + F.closures_of(f):
+            for c in g.calls():
+                cal = mir.strip_generics(c.callee() or "")
+                for pat in ORDER_CHANGING:
+                    if re.search(pat, cal):
+                        if pat.startswith(r"IntoIterator"):
+                            ty = g.locals[mir.op_local(c.args[0])] if c.args and mir.op_local(c.args[0]) is not None else ""
+                            if not any(o in ty for o in ORDERED_SOURCES):
+                                continue
+                        hits.append((g, c, cal))
+                        break
+        n += 1
+        rep.ob(rule, "%s reach the code generator in source order (the parser re-orders nothing)" % label, "violated" if hits else "ok",
+               ("%s calls %s: the sequence the generator walks is no longer the order the program wrote, so `map{f(): 1, g(): 2}` / `h(f(), g())` may run g first"
+                % (mir.short(hits[0][0].path), mir.short(hits[0][2]))) if hits else "", hits[0][1].span if hits else f.span, fn=f.path, key="%s|%s" % (rule, nm))
+    rep.floor(rule + " sequence builders judged", n, 4)
